@@ -17,16 +17,25 @@ static Ctx ctx;
 struct Src { std::string name, text; bool isAsm; };
 struct Result { int status; std::string bin, listing, err; bool operator==(const Result &o) const { return status == o.status && bin == o.bin && listing == o.listing && err == o.err; } };
 
+// errno is process-global state a tool can leave behind and read back; the harness's own file handling between two tool calls would overwrite it,
+// so it is carried from the end of one tool call to the start of the next (g_errno = 0 starts a fresh history)
+static int g_errno = 0;
 static Result produce(const Src &s, const std::string &outPath) {
   Result r;
   unlink(outPath.c_str());
   if (s.isAsm) {
+    errno = g_errno;
     auto a = ad::assemble_text(s.text, ad::A_FILE | ad::A_LISTING, outPath);
+    g_errno = errno;
     r.status = a.kind; r.bin = a.file; r.listing = a.listing; r.err = a.err;
   } else {
+    errno = g_errno;
     auto a = ad::xcompile(s.text, ad::X_BINARY, outPath);
+    g_errno = errno;
     r.status = a.status; r.err = a.err; if (a.status == 0) r.bin = slurp(outPath);
+    errno = g_errno;
     auto l = ad::xcompile(s.text, ad::X_ASM, outPath);
+    g_errno = errno;
     r.listing = l.out; if (l.status != a.status) r.err += "|listing status " + std::to_string(l.status);
   }
   unlink(outPath.c_str());
@@ -95,6 +104,16 @@ int main(int argc, char **argv) {
     JV v; if (!jparse(slurp(ctx.replayPath), v)) harness_fail("cannot parse replay");
     const JV *c = v.get("case"); if (c && c->get("case")) c = c->get("case"); if (!c) harness_fail("no case");
     Src s{"replay", c->str("source"), c->str("tool") == "hexasm"};
+    if (c->str("family") == "history") {
+      Src p1{"poison", c->str("first"), c->get("first_is_asm") && c->get("first_is_asm")->b}, p2{"poison", c->str("second"), c->get("first_is_asm") && c->get("first_is_asm")->b};
+      int rc = run_isolated([&] {
+        std::string out = ctx.scratch + "/replay.out"; g_errno = 0; Result alone = produce(s, out);
+        int bad = 0;
+        for (int asm2 = 0; asm2 < 2; asm2++) { p2.isAsm = asm2; g_errno = 0; (void)produce(p1, out); if (!p2.text.empty()) (void)produce(p2, out); Result r = produce(s, out); if (!(r == alone)) { bad++; printf("after the history: status %d, diagnostic '%s' (alone: status %d, '%s')\n", r.status, r.err.substr(0, 200).c_str(), alone.status, alone.err.substr(0, 200).c_str()); } }
+        if (bad) _exit(7); printf("replay: the subject is processed identically alone and after the history\n"); }, 300);
+      if (rc) { printf("VIOLATION property=C11 replay=%s\n", ctx.replayPath.c_str()); return 1; }
+      return 0;
+    }
     int rc = run_isolated([&] {
       std::string out = ctx.scratch + "/replay.out"; Result base; bool have = false; int bad = 0;
       for (auto &cf : cfgs) { if (cf.pred >= 0) continue; robust::g_fill = cf.fill; robust::g_shift = cf.shift; robust::g_fill_on = true; robust::dirtyStack(cf.stack); Result r = produce(s, out); robust::g_fill_on = false; if (!have) { base = r; have = true; } else if (!(r == base)) bad++; }
@@ -110,12 +129,12 @@ int main(int argc, char **argv) {
       if (ctx.expired()) { st.add("sources_skipped_deadline"); continue; }
       const Src &s = srcs[i]; bool huge = s.text.size() > 20000;
       Result base; bool have = false;
-      size_t cfgIndex = 0;
+      size_t cfgIndex = 0; g_errno = 0;
       for (auto &cf : cfgs) {
         cfgIndex++;
         if (huge && (cf.shift == 4096 || (cf.pred >= 0 && !th))) continue;
         if (s.name == "edit" && !th && !(cfgIndex == 1 || cf.fill == 0xA5 || (cf.fill == 0xFF && cf.shift == 16 && cf.stack == 0xFF))) continue;
-        robust::g_fill = cf.fill; robust::g_shift = cf.shift; robust::g_fill_on = true; robust::dirtyStack(cf.stack);
+        g_errno = 0; robust::g_fill = cf.fill; robust::g_shift = cf.shift; robust::g_fill_on = true; robust::dirtyStack(cf.stack);
         if (cf.pred >= 0 && (size_t)cf.pred != i) (void)produce(srcs[cf.pred], out);
         Result r = produce(s, out);
         robust::g_fill_on = false;
@@ -137,6 +156,62 @@ int main(int argc, char **argv) {
   auto r = run_chunks(ctx, "c11", srcs.size(), std::min<uint64_t>(srcs.size(), 2048), body, [&](uint64_t i) { return Obj().kv("tool", srcs[i].isAsm ? "hexasm" : "xcmp").kv("source_name", srcs[i].name).kv("source", srcs[i].text.substr(0, 4000)).str(); }, 300, (size_t)24 << 30);
   rep.st.merge(r.stats);
   if (!r.complete || rep.st.c["sources_skipped_deadline"]) rep.caps.push_back("in-process: deadline");
+  // ---- histories: every "poison" source (chosen to leave something behind: overflowing literals set errno, every kind of diagnostic unwinds from a different depth,
+  // long strings/many constants/many labels advance counters and grow buffers) processed first, singly and in ordered pairs, then each subject; compared with the subject processed alone
+  if (!ctx.expired()) {
+    std::vector<Src> poison;
+    for (const char *x : {"proc main() is 0(99999999999999999999)", "proc main() is 0(#FFFFFFFFFFFFFFFFFFFFF)", "val v = 184467440737095516160; proc main() is 0(v)", "proc main() is 0(4294967296)", "proc main() is 0(2147483647 + 1)",
+                          "proc main() is 0(", "proc main() is 0($)", "proc main() is 0(x)", "proc main() is 0('ab')", "proc main() is 0(\"abc", "val a = b; val b = a; proc main() is 0(a)", "var x; var x; proc main() is skip",
+                          "proc p() is skip", "proc main() is { main := 1 }", "proc main() is 3(0)", "array a[0]; proc main() is 0(a[0])", "array a[100000]; proc main() is 0(a[99999])", "",
+                          "func f(val n) is if n = 0 then return 0 else return f(n - 1) + 70000 proc main() is 0(f(3))",
+                          "proc p(array s) is 0(s[0]) proc main() is p(\"a string that is long enough to need several words of packing, with \\n escapes\")"})
+      poison.push_back({"poison", x, false});
+    { std::string many = "proc main() is var x; {"; for (int i = 0; i < 300; i++) many += " x := " + std::to_string(70000 + i) + "; if x = " + std::to_string(i) + " then x := 0 else skip;"; many += " 0(x) }"; poison.push_back({"poison", many, false}); }
+    for (const char *x : {"DATA 99999999999999999999\n", "LDAC 99999999999999999999999\n", "LDAC -99999999999999999999\n", "BR foo\n", "a\na\nBR a\n", "LDAC\n", "OPR LDAC\n", "$\n", "", "x\nDATA 1\nLDAM x\n", "PROC p\nFUNC p\n",
+                          "BR l\nLDAC 1\nDATA 4294967295\nl\nLDAC -2147483648\nOPR SVC\n"})
+      poison.push_back({"poison-asm", x, true});
+    { std::string many; for (int i = 0; i < 400; i++) many += "BR l" + std::to_string(399 - i) + "\nl" + std::to_string(i) + "\nLDAC " + std::to_string(i * 37) + "\n"; poison.push_back({"poison-asm", many, true}); }
+    std::vector<size_t> subj;
+    { size_t nc = 0, ns = 0, ne = 0;
+      for (size_t i = 0; i < srcs.size(); i++) {
+        const std::string &n = srcs[i].name;
+        if (srcs[i].text.size() > 20000 && !th) continue;
+        if (n == "unusual" || n == "unusual-asm" || (n.size() > 2 && (n.substr(n.size() - 2) == ".x" || n.substr(n.size() - 2) == ".S"))) subj.push_back(i);
+        else if (n == "string-length") { if (ns++ % 5 == 0) subj.push_back(i); }
+        else if (n == "edit") { if (ne++ % (th ? 50 : 400) == 0) subj.push_back(i); }
+        else if (nc++ % (th ? 10 : 40) == 0) subj.push_back(i);
+      } }
+    // histories: single poison, and ordered pairs (thorough: all; quick: pairs whose first member is one of the literal-overflow sources)
+    std::vector<std::pair<int, int>> hist; for (size_t a = 0; a < poison.size(); a++) hist.push_back({(int)a, -1});
+    for (size_t a = 0; a < poison.size(); a++) for (size_t b = 0; b < poison.size(); b++) if (a != b && (th || a < 3 || (poison[a].isAsm && a < 23))) hist.push_back({(int)a, (int)b});
+    phase(ctx, "histories: " + std::to_string(hist.size()) + " poison histories x " + std::to_string(subj.size()) + " subjects");
+    auto bodyH = [&](uint64_t b, uint64_t e, const std::set<uint64_t> &skip, Stats &st, volatile uint64_t *cur) {
+      std::string out = ctx.scratch + "/c11h." + std::to_string(getpid()) + ".out";
+      for (uint64_t k = b; k < e; k++) {
+        *cur = k; if (skip.count(k)) continue;
+        if (ctx.expired()) { st.add("history_subjects_skipped_deadline"); continue; }
+        const Src &s = srcs[subj[k]];
+        g_errno = 0; Result alone = produce(s, out);
+        for (auto &h : hist) {
+          g_errno = 0;
+          (void)produce(poison[h.first], out); if (h.second >= 0) (void)produce(poison[h.second], out);
+          Result r = produce(s, out);
+          st.add("pairs"); st.add("history_runs");
+          if (!(r == alone)) {
+            std::string what = r.status != alone.status ? "verdict" : r.bin != alone.bin ? "binary" : r.listing != alone.listing ? "listing" : "diagnostic";
+            st.violation(std::string(s.isAsm ? "hexasm:" : "xcmp:") + what + ":after-history", k,
+                         Obj().kv("tool", s.isAsm ? "hexasm" : "xcmp").kv("family", "history").kv("source_name", s.name).kv("source", s.text.substr(0, 4000)).kv("first", poison[h.first].text.substr(0, 300)).kb("first_is_asm", poison[h.first].isAsm)
+                             .kv("second", h.second >= 0 ? poison[h.second].text.substr(0, 300) : std::string("")).kv("what", what + " differs from the subject processed alone (status " + std::to_string(alone.status) + "/" + std::to_string(r.status) + "): " + r.err.substr(0, 120)).str());
+            break;
+          }
+        }
+      }
+    };
+    auto rh = run_chunks(ctx, "hist", subj.size(), std::min<uint64_t>(subj.size(), 256), bodyH, [&](uint64_t k) { return Obj().kv("family", "history").kv("source", srcs[subj[k]].text.substr(0, 2000)).str(); }, 600, (size_t)24 << 30);
+    rep.st.merge(rh.stats);
+    if (!rh.complete || rep.st.c["history_subjects_skipped_deadline"]) rep.caps.push_back("histories: deadline");
+    rep.bounds.kv("poison_sources", (uint64_t)poison.size()).kv("histories", (uint64_t)hist.size()).kv("history_subjects", (uint64_t)subj.size());
+  }
   // ---- process level
   const char *cli = getenv("HEX_CLI");
   if (cli && !ctx.expired()) {
@@ -180,7 +255,8 @@ int main(int argc, char **argv) {
   rep.evaluations = c["pairs"] + c["process_runs"]; rep.states = c["pairs"]; rep.transitions = rep.evaluations; rep.validated = rep.evaluations;
   rep.nontrivial = c["pairs"];
   rep.rule = "sources: shipped X and assembly files, a stride sample of the C01 and C05 corpora, and semantically unusual sources (accepted and rejected); configurations in-process: heap fill {00,FF,A5,5A} x "
-             "allocation shift {0,16,4096 bytes: changes every pointer value and their order} x stack fill {00,FF}, plus each of 6 other sources compiled first in the same process; process level: "
+             "allocation shift {0,16,4096 bytes: changes every pointer value and their order} x stack fill {00,FF}, plus each of 6 other sources compiled first in the same process; histories: every poison source "
+             "(overflowing literals, one diagnostic per stage, long strings, many constants/labels; X and assembly) singly and in ordered pairs before each subject, compared with the subject alone; process level: "
              "MALLOC_PERTURB_ {0,85,170,255 | thorough 0..255} x environment padding {0,4K,64K} x ASLR {off via setarch -R, on} for binary and listing modes; every (source,configuration) pair must yield "
              "the byte-identical binary, listing and diagnostic as the first configuration; pairs are distinct by construction";
   rep.bounds.kv("sources", (uint64_t)srcs.size()).kv("in_process_configurations", (uint64_t)cfgs.size());
